@@ -7,11 +7,55 @@ package props
 // parent is missing, is not an object, or brings a name the heir has.
 
 import (
+	stdjson "encoding/json"
 	"fmt"
 	"strings"
 
+	"github.com/jsightapi/jsight-schema-core/openapi"
+
 	"verifharness/internal/mon"
 )
+
+// c07OrderedTopKeys returns the member names of a JSON object text in written order.
+func c07OrderedTopKeys(obj string) []string {
+	dec := stdjson.NewDecoder(strings.NewReader(obj))
+	var keys []string
+	depth, expectKey := 0, false
+	for {
+		tok, err := dec.Token()
+		if err != nil {
+			return keys
+		}
+		switch t := tok.(type) {
+		case stdjson.Delim:
+			switch t {
+			case '{', '[':
+				depth++
+				expectKey = t == '{' && depth == 1
+			default:
+				depth--
+				expectKey = depth == 1
+			}
+		case string:
+			if depth == 1 && expectKey {
+				keys = append(keys, t)
+				expectKey = false
+				continue
+			}
+			expectKey = depth == 1
+		default:
+			expectKey = depth == 1
+		}
+	}
+}
+
+func c07TopKeys(obj string) map[string]struct{} {
+	m := map[string]struct{}{}
+	for _, k := range c07OrderedTopKeys(obj) {
+		m[k] = struct{}{}
+	}
+	return m
+}
 
 type c07Parent struct {
 	name    string
@@ -54,6 +98,12 @@ func c07Placements() []c07Placement {
 		{"member of a member of a type", func(h string) (string, []typeDef) {
 			return "[@t]", []typeDef{{Name: "@t", Text: "{\n  \"u\": {\n    \"v\": " + ind(h, "    ") + "\n  }\n}"}}
 		}, func(e string) string { return `[{"u":{"v":` + e + `}}]` }},
+		// a choice that names the parent and the heir (the example is that of the first alternative: not compared)
+		{"root choice of the parent and the heir", func(h string) (string, []typeDef) { return "@p | @t", []typeDef{{Name: "@t", Text: h}} }, func(string) string { return "" }},
+		{"root choice of the heir and the parent", func(h string) (string, []typeDef) { return "@t | @p", []typeDef{{Name: "@t", Text: h}} }, func(string) string { return "" }},
+		{"member choice of the parent and the heir", func(h string) (string, []typeDef) {
+			return "{\n  \"c\": @p | @t\n}", []typeDef{{Name: "@t", Text: h}}
+		}, func(string) string { return "" }},
 	}
 }
 
@@ -107,6 +157,7 @@ func c07ExtraRun(r *mon.Run) {
 				var code int
 				var ex string
 				var exErr error
+				var listings [][]string
 				if pn := mon.Guard(func() {
 					s, berr := p.build()
 					if berr != nil {
@@ -127,6 +178,16 @@ func c07ExtraRun(r *mon.Run) {
 					}
 					b, e := s.Example()
 					ex, exErr = string(b), e
+					// the OpenAPI listing: every object that lists the heir's own member lists the inherited ones too
+					for _, inf := range openapi.Dereference(s) {
+						if oi, ok := inf.(openapi.ObjectInformer); ok {
+							var keys []string
+							for _, pi := range oi.PropertiesInfos() {
+								keys = append(keys, pi.Key())
+							}
+							listings = append(listings, keys)
+						}
+					}
 				}); pn != nil {
 					r.Violate("panic", "placement/"+pn.Site, fmt.Sprintf("%s: panic %s on %s", key, pn.Value, mon.Trunc(projectKey(p), 300)), cs)
 					continue
@@ -137,8 +198,26 @@ func c07ExtraRun(r *mon.Run) {
 					r.Violate("accepted-invalid", key, fmt.Sprintf("Check() accepts although %s: %s", why, mon.Trunc(projectKey(p), 300)), cs)
 				case !wantRefused && code != 0:
 					r.Violate("refused-valid", key, fmt.Sprintf("Check() refuses (code %d) a valid inheritance: %s", code, mon.Trunc(projectKey(p), 300)), cs)
-				case !wantRefused && (exErr != nil || ex != want):
+				case !wantRefused && want != "" && (exErr != nil || ex != want):
 					r.Violate("example-keys", key, fmt.Sprintf("Example() is %s (%v); own members followed by the inherited ones give %s; project %s", mon.Trunc(ex, 200), exErr, want, mon.Trunc(projectKey(p), 300)), cs)
+				}
+				if !wantRefused && code == 0 && !strings.Contains(par.name, "key shortcut") {
+					// the keys of the heir as its example shows them (own first, then inherited)
+					wantKeys := c07OrderedTopKeys(wantEx)
+					for _, l := range listings {
+						has := false
+						for _, k := range l {
+							if k == "own" {
+								has = true
+							}
+						}
+						if has {
+							r.Count("openapi_listings_of_the_heir_compared", 1)
+							if strings.Join(l, ",") != strings.Join(wantKeys, ",") {
+								r.Violate("openapi-keys", key, fmt.Sprintf("openapi.Dereference lists the inheriting object with the properties %v; own members followed by the inherited ones are %v; project %s", l, wantKeys, mon.Trunc(projectKey(p), 300)), cs)
+							}
+						}
+					}
 				}
 				r.Count("placement_cases", 1)
 			}
